@@ -18,7 +18,9 @@ import SslModel.Model.Spec
   operators, `&&` / `||`, assignment operators, indexing, tuple and field access, slices, calls,
   `if` / `else`, `if x: T = e`, `match`, blocks, `:=`, tuple destructuring, `loop`, `while`,
   `break`, `continue`, `return`, struct literals, the postfix iterator operators, `$`, `? T`.
-  Outside: function literals and declarations, modules, `for`, `while x: T = e`, constants that are
+  Function literals and declarations are folded as `Code::parse` folds them (the body with the
+  constants of the enclosing scopes); the second folding at closure creation is not modelled.
+  Outside: modules, `for`, `while x: T = e`, constants that are
   arrays built by an operator (`a + b` on constant arrays, constant `[v; n]`).
 
   Sources: instruction.rs (`Recreate for Instruction`), bin_op.rs, bin_op/logic.rs,
@@ -180,6 +182,9 @@ def destructBinds (g : CEnv) (xs : List String) (e0 e : Expr) : List (String × 
 
 def bindAll (bs : List (String × Option Expr × Bool)) (g : CEnv) : CEnv := bs.foldl (fun g b => b :: g) g
 
+/-- `function_layer(params)`: the parameters, later ones shadowing earlier ones, none of them a constant -/
+def paramsEnv (ps : List (String × Ty)) (g : CEnv) : CEnv := ps.foldl (fun g p => (p.1, none, false) :: g) g
+
 mutual
 def fold : CEnv → Expr → R Expr
   | _, .litBool b => .ok (.litBool b)
@@ -325,7 +330,11 @@ def fold : CEnv → Expr → R Expr
         .ok (.loop (.ifElse c' body' (some .brk)))
   | _, .brk => .ok .brk
   | _, .cont => .ok .cont
-  | _, .fn .. => unsup "function literal"
+  | g, .fn ps r body => do
+    -- `AnonymousFunction::recreate`: the body is folded at parse time with the constants of the enclosing scopes
+    -- (and again, with the captured VALUES, each time the closure is created: not modelled, finding F07)
+    let (body', _) ← foldSeq true (paramsEnv ps g) body
+    .ok (.fn ps r body')
   | _, .modE .. => unsup "module"
   | _, .whileSet .. => unsup "while-set"
   | _, .forE .. => unsup "for"
@@ -384,6 +393,11 @@ def foldSeq : Bool → CEnv → List Expr → R (List Expr × CEnv)
       let e' ← fold g e
       let (rest', g') ← foldSeq blk (bindAll (destructBinds g xs e e') g) rest
       .ok (.destruct xs e' :: rest', g')
+    | .fndecl x ps r body => do
+      -- `FunctionDeclaration::recreate`: the name is declared first (the body may call it), not as a constant
+      let (body', _) ← foldSeq true (paramsEnv ps ((x, none, false) :: g)) body
+      let (rest', g') ← foldSeq blk ((x, none, false) :: g) rest
+      .ok (.fndecl x ps r body' :: rest', g')
     | s =>
       if blk && !rest.isEmpty && crConst g s then foldSeq blk g rest
       else do
